@@ -57,6 +57,18 @@ func reasonOf(a Atom, be *BigEval) (kind, text string) {
 			if n := g.Bound.opaqueName(); n != "" {
 				other = n
 			}
+			// an operand obtained from a lookup helper is named by the value the helper returns
+			if g.Call != nil && len(g.Call.Call.Args) == 2 {
+				for _, op := range g.Call.Call.Args {
+					if op == g.SubjV {
+						if desc(op) == subj {
+							subj = descNN(op)
+						}
+					} else if desc(op) == other {
+						other = descNN(op)
+					}
+				}
+			}
 		}
 		if other != "" && guardRank(other) == guardRank(subj) && other < subj {
 			subj, rel = other, relFlip[rel]
@@ -141,10 +153,10 @@ func collectRejections(P *Program, fn *ssa.Function, depth int, seenFn map[strin
 	record = func(a Atom, pos string) {
 		a = normAtom(a)
 		// a boolean built from a conjunction/disjunction: expand
-		if phi, ok := a.V.(*ssa.Phi); ok && a.Want == False {
+		if phi, ok := a.V.(*ssa.Phi); ok && (a.Want == False || a.Want == True) {
 			for i, e := range phi.Edges {
 				if bc, isB := boolConst(e); isB {
-					if !bc {
+					if bc == (a.Want == True) {
 						p := phi.Block().Preds[i]
 						if iff, ok := p.Instrs[len(p.Instrs)-1].(*ssa.If); ok {
 							want := True
@@ -158,7 +170,7 @@ func collectRejections(P *Program, fn *ssa.Function, depth int, seenFn map[strin
 					}
 					continue
 				}
-				record(Atom{Fn: fn, V: e, Want: False}, pos)
+				record(Atom{Fn: fn, V: e, Want: a.Want}, pos)
 			}
 			return
 		}
